@@ -213,6 +213,7 @@ type rgen struct {
 	compress bool
 	limit    int
 	big      bool
+	minCut   int   // truncation never cuts before this offset (the HTTP response of an upgrade hand-off case)
 	bounds   []int // frame boundaries (stream offsets)
 }
 
@@ -447,10 +448,10 @@ func (r *rgen) malformed() {
 		r.fr(fspec{fin: true, op: 8, masked: m, payload: p})
 	case 15: // truncated stream
 		r.valid()
-		if n := r.s.size(); n > 1 {
-			cut := 1 + g.Intn(n-1)
+		if n := r.s.size(); n > 1 && n > r.minCut+1 {
+			cut := r.minCut + 1 + g.Intn(n-r.minCut-1)
 			if g.Chance(1, 2) {
-				cut = n - 1 - g.Intn(min(n-1, 4))
+				cut = n - 1 - g.Intn(min(n-r.minCut-1, 4))
 			}
 			t := &stream{}
 			t.add(parseSpec(r.s.spec(0, cut)))
@@ -587,6 +588,7 @@ func genUp(g *lp.Gen) {
 	head += "\r\n"
 	r.s.add([]byte(head))
 	hl := len(head)
+	r.minCut = hl
 	n := 1 + g.Intn(4)
 	for i := 0; i < n; i++ {
 		if i == n-1 && g.Chance(1, 6) {
